@@ -411,7 +411,7 @@ def lifecycle_cases(requests=('incr', 'decr', 'set', 'restart', 'reload',
                     extra_watcher_opts=None, kill_cmd=False, signal_cmd=False,
                     respawn_false=False, rm=False, quit=False,
                     set_other=False, config=False, job_control=False,
-                    ondemand=False):
+                    ondemand=False, capture=False):
     """General history generator shared by several properties."""
     from hypothesis import strategies as st
 
@@ -466,6 +466,11 @@ def lifecycle_cases(requests=('incr', 'decr', 'set', 'restart', 'reload',
                 wc["hooks"] = hk
             if extra_watcher_opts:
                 wc.update(draw(extra_watcher_opts))
+            if capture and not use_config and draw(st.booleans()):
+                # output capture: real pipes registered with the loop
+                wc["stdout_stream"] = {"class": "QueueStream"}
+                if draw(st.booleans()):
+                    wc["stderr_stream"] = {"class": "QueueStream"}
             watchers.append(wc)
         names = [wc["name"] for wc in watchers]
         tape = draw(st.lists(behaviours(gts=tuple(sorted(set(gts))),
